@@ -107,6 +107,7 @@ pub fn family_check(w: &mut World, k: u16, r: &RetSig) {
                 if r.top != e.2 {
                     bad!("returned an error other than the first one observed (child {})", e.0);
                 }
+                w.combs[k as usize].final_err = true;
                 return;
             }
             let all = w.combs[k as usize].children.iter().all(|&c| {
